@@ -5,6 +5,22 @@ From Coq Require Export NArith List Bool.
 Export ListNotations.
 Open Scope N_scope.
 
+(* keep cbn/simpl from unfolding binary arithmetic on symbolic operands (lia then finds no witness) *)
+Arguments N.add : simpl never.
+Arguments N.sub : simpl never.
+Arguments N.mul : simpl never.
+Arguments N.div : simpl never.
+Arguments N.modulo : simpl never.
+Arguments N.eqb : simpl never.
+Arguments N.ltb : simpl never.
+Arguments N.leb : simpl never.
+Arguments N.pow : simpl never.
+Arguments N.shiftl : simpl never.
+Arguments N.shiftr : simpl never.
+Arguments N.land : simpl never.
+Arguments N.lor : simpl never.
+Arguments N.lxor : simpl never.
+
 Inductive outcome (E A : Type) : Type :=
 | Ok (a : A)
 | Err (e : E)
@@ -73,6 +89,13 @@ Fixpoint set_nth {A} (l : list A) (i : nat) (v : A) : list A :=
   | [], _ => []
   | _ :: r, O => v :: r
   | x :: r, S j => x :: set_nth r j v
+  end.
+
+Fixpoint list_eqb (a b : list N) : bool :=
+  match a, b with
+  | [], [] => true
+  | x :: a', y :: b' => (x =? y) && list_eqb a' b'
+  | _, _ => false
   end.
 
 Definition byteb (x : N) : bool := x <? 256.
